@@ -31,7 +31,7 @@ def theta_grid(fam):
         return [0.01, 0.1, 0.5, 1.0, 2.0, 3.5, 8.0]
     if fam == 'gumbel':
         return [1.0, 1.0000001, 1.05, 1.5, 2.0, 3.3, 5.0]
-    return [-18.2, -7.0, -1.0, -0.05, 0.05, 1.0, 4.5, 18.2]
+    return [-18.2, -7.0, -1.0, -0.05, -5e-4, 1e-5, 3e-4, 0.05, 1.0, 4.5, 18.2]
 
 
 def theta_random(fam, rng):
@@ -39,7 +39,7 @@ def theta_random(fam, rng):
         return math.exp(rng.uniform(math.log(0.01), math.log(8.0)))
     if fam == 'gumbel':
         return 1.0 + 4.0 * rng.random() ** 2 if rng.random() > 0.1 else 1.0
-    t = math.exp(rng.uniform(math.log(0.02), math.log(18.2)))
+    t = math.exp(rng.uniform(math.log(1e-5 if rng.random() < 0.25 else 0.02), math.log(18.2)))
     return t if rng.random() < 0.6 else -t
 
 
